@@ -15,9 +15,10 @@ def reset_config():
 
 
 class Stack:
-    def __init__(self, loop, snap, plan, rng, latency=0.02, configured=True):
+    def __init__(self, loop, snap, plan, rng, latency=0.02, configured=True, suspend=None):
         import geckolib.async_spa_manager as M
         self.loop, self.plan, self.rng = loop, plan, rng
+        self.suspend = suspend      # None, or event name -> seconds the client's handler stays suspended (0 = one pass of the loop)
         self.events = []            # (t, event name, state name, facade?)
         self.states = []            # (t, state name) on change
         stack = self
@@ -67,6 +68,10 @@ class Stack:
                 stack.events.append((loop.time(), event.name, self.spa_state.name, self.facade is not None))
                 if not stack.states or stack.states[-1][1] != self.spa_state.name:
                     stack.states.append((loop.time(), self.spa_state.name))
+                if stack.suspend is not None:
+                    d = stack.suspend(event.name)
+                    if d is not None:
+                        await asyncio.sleep(d)
         kw = dict(spa_identifier=session.SPA_ID.decode(), spa_name="Spa", spa_address=None) if configured else {}
         self.man = Man("00000000-1111-2222-3333-444444444444", **kw)
 
